@@ -7,7 +7,7 @@
 import TrompModel.Model.CxxBase
 namespace Tromp.Cxx
 
-/-- `impl::includes_elements_checker::operator()` — translated from include/trompeloeil/matcher/range.hpp:329 -/
+/-- `impl::includes_elements_checker::operator()` — translated from include/trompeloeil/matcher/range.hpp:333 -/
 def includes_elements {α μ : Type} (accepts : μ → α → Bool) (range : List α) (elements : List μ) : Bool := Id.run do
   let mut matchers : List μ := elements
   let mut it_at_end : Bool := true
